@@ -13,8 +13,9 @@ import (
 
 // c18Vmsa: strictness of sev.PutVmsa (the only VMSA codec in the repository): every reserved field of the
 // save area — byte-array fields and 64-bit fields alike — must be refused when non-zero (or of the wrong
-// size), every out-of-range segment selector / attribute and CPL must be refused, and in-range values are
-// written. Each case takes the GCE reset state, overrides ONE field found by reflection on the proto struct
+// size) and accepted when all zero and of the ABI size; the architected fields PutVmsa does not write
+// (VALID_BITMAP, X87_STATE_GPA) must be refused when non-zero rather than dropped; every out-of-range segment
+// selector / attribute and CPL must be refused, and in-range values are written. Each case takes the GCE reset state, overrides ONE field found by reflection on the proto struct
 // (so a new field cannot be forgotten) and is compared with the Lean interpreter of the regenerated PutVmsa
 // statement table (`c04 op=vmsax`, model of C04); the direct oracle states the strictness clause itself.
 func c18Vmsa(c *Ctx) {
@@ -25,7 +26,18 @@ func c18Vmsa(c *Ctx) {
 		}
 		return v
 	}
+	// ABI sizes of the byte-array fields (APM vol. 2 table B-4 / the comments of proto/sev: reserved ranges
+	// 0xA0-0xCA, 0xCC-0xCF, 0xD8-0x13F, 0x180-0x1D7, 0x1E0-0x1F7, 0x248-0x267, 0x298-0x2E7, 0x2EC-0x2FF,
+	// 0x380-0x38F, 0x3B8-0x3E7, VALID_BITMAP 0x3F0-0x3FF, 0x408-0x7FF), written here independently of sev/abi.go
+	abiSize := map[string]int{"Reserved_1": 43, "Reserved_2": 4, "Reserved_3": 104, "Reserved_4": 88, "Reserved_5": 24,
+		"Reserved_6": 32, "Reserved_7": 80, "Reserved_7A": 20, "Reserved_10": 16, "Reserved_11": 48, "Reserved_12": 1016,
+		"ValidBitmap": 16}
+	// architected fields PutVmsa does not write (zero at launch): a non-zero value must be refused, not dropped
+	notWritten := map[string]bool{"ValidBitmap": true, "X87StateGpa": true}
+	var mustAccept bool
 	run := func(v *spb.VmcbSaveArea, set, rset, what string, mustRefuse bool) {
+		accept := mustAccept
+		mustAccept = false
 		op := "c04 op=vmsax set=" + set + " rset=" + rset
 		page := make([]byte, 4096)
 		var err error
@@ -37,6 +49,9 @@ func c18Vmsa(c *Ctx) {
 		case err != nil:
 			c.Case(op, "reject", true)
 			c.Count("vmsa/" + what + "/reject")
+			if accept {
+				c.Find("c18/PutVmsa/strict/"+what+"-refused", "sev.PutVmsa refused a save area whose "+what+" ("+set+rset+") is an in-range value: "+err.Error(), op)
+			}
 		default:
 			h := sha512.Sum384(page)
 			c.Case(op, "ok "+hx(h[:]), true)
@@ -61,19 +76,40 @@ func c18Vmsa(c *Ctx) {
 				run(v, fmt.Sprintf("%s:%d", f.Name, x), "", "reserved64-nonzero", true)
 			}
 			run(base(), f.Name+":0", "", "reserved64-zero", false)
-		case strings.HasPrefix(lower, "reserved") && f.Type.Kind() == reflect.Slice:
-			// the right length is what the layout table says; probe a few lengths with one non-zero byte
-			for _, n := range []int{1, 4, 20, 24, 32, 43, 56, 80, 88, 104} {
+		case notWritten[f.Name] && f.Type.Kind() == reflect.Uint64:
+			for _, x := range []uint64{1, 5, 0x1000, 1 << 63} {
+				v := base()
+				reflect.ValueOf(v).Elem().Field(i).SetUint(x)
+				run(v, fmt.Sprintf("%s:%d", f.Name, x), "", "value-not-written", true)
+			}
+			mustAccept = true
+			run(base(), f.Name+":0", "", "value-not-written-zero", false)
+		case (strings.HasPrefix(lower, "reserved") || notWritten[f.Name]) && f.Type.Kind() == reflect.Slice:
+			what := "reserved-bytes-nonzero"
+			if notWritten[f.Name] {
+				what = "value-not-written"
+			}
+			size, known := abiSize[f.Name]
+			if !known {
+				c.Find("c18/PutVmsa/strict/byte-field-without-abi-size", "VmcbSaveArea has a reserved byte field the harness has no ABI size for: "+f.Name, f.Name)
+			}
+			// the ABI size must be accepted when all zero and refused with any byte set; other sizes are refused
+			for _, n := range []int{1, 4, 16, 20, 24, 32, 43, 48, 56, 80, 88, 104, 1016} {
 				for _, pos := range []int{0, n - 1} {
 					b := make([]byte, n)
 					b[pos] = 0x80
 					v := base()
 					reflect.ValueOf(v).Elem().Field(i).SetBytes(b)
-					run(v, "", f.Name+":"+hx(b), "reserved-bytes-nonzero", true)
+					run(v, "", f.Name+":"+hx(b), what, true)
 				}
 				v := base()
 				reflect.ValueOf(v).Elem().Field(i).SetBytes(make([]byte, n))
-				run(v, "", f.Name+":"+hx(make([]byte, n)), "reserved-bytes-zero-len"+fmt.Sprint(n), false)
+				if known && n == size {
+					mustAccept = true
+					run(v, "", f.Name+":"+hx(make([]byte, n)), "in-range-value", false)
+				} else {
+					run(v, "", f.Name+":"+hx(make([]byte, n)), "reserved-bytes-zero-wrong-size", known)
+				}
 			}
 		case f.Type == reflect.TypeOf((*spb.VmcbSeg)(nil)):
 			for _, sub := range []string{"Selector", "Attrib"} {
